@@ -81,10 +81,7 @@ func TestMaintRace(t *testing.T) {
 				if err != nil {
 					t.Fatal(err)
 				}
-				lg.Add(inst.Event{Ev: "cfg", Data: map[string]any{
-					"gw": int64(cfg.T.gw / time.Millisecond), "gi": int64(cfg.T.gi / time.Millisecond), "ri": int64(cfg.T.ri / time.Millisecond),
-					"integs": cfg.Integs, "inhibit": false, "rt": int64(resolveTimeout / time.Millisecond), "windows": []inst.Window{}, "mute": []tiv{}, "active": []tiv{}, "gkp": "{}", "wait": 0, "maxwait": 0,
-				}})
+				lg.Add(inst.Event{Ev: "cfg", Data: cfg.event(nil, 0, 0)})
 				if err := in.Reload(cfg.yaml(cfg.Integs)); err != nil {
 					t.Fatal(err)
 				}
